@@ -3,7 +3,7 @@ from engines import mutsim
 PROPERTY = "C47"
 ENGINE = "gridsim/mut"
 LEVEL = "exploration"
-COUNTS = {"quick": 900, "thorough": 20000}
+COUNTS = {"quick": 1600, "thorough": 30000}
 CHUNK = 25
 TIMEOUT = 90
 WALL = {"quick": 170, "thorough": 1700}
@@ -11,7 +11,7 @@ RULE = ("seeded runs of the real mutable-file stack (NodeMaker, MutableFileNode,
         "of 1-12 real storage servers; k<=N<=10, SDMF and MDMF with the MDMF segment size knob drawn from 3k..128KiB so multi-segment files are cheap; every server "
         "answer is delivered in a drawn order; operation histories and faults drawn per seed; non-trivial = at least one mutable operation completed; "
         "distinct = (probe counts, k, n, format, faults fired) fingerprint")
-RULE += '; plus duplicated share numbers on several servers and servers whose writes fail from some call on'
+RULE += '; plus duplicated share numbers on several servers and servers whose writes fail from some call on; one run in five: 2-3 uncoordinated writers on a possibly partitioned grid (a publish shown another writer\'s shares in its write answers must not report success)'
 TECHNIQUE = "deterministic simulation: seeded operation histories and delivery schedules vs byte-array reference model and on-disk ground truth"
 LEVEL_TEXT = "seeded search over histories, configurations, schedules and fault placements; sampling, not enumeration"
 LEVEL_NOTE = ("real: allmydata.client._Client, nodemaker, mutable.filenode/publish/retrieve/servermap/layout, storage server; stub: reactor, foolscap wire "
@@ -21,9 +21,28 @@ STUB = ["reactor/time", "foolscap transport (SimNet/SimRef)", "os.urandom", "RSA
 ASSUMPTIONS = ["per-connection FIFO delivery (TCP)", "RSA-PSS signatures are randomised (OpenSSL RNG) and excluded from digests"]
 
 
+_FROM_RACE = {"C12.surprise-share-but-success": "C47.unexpected-version-but-success",
+              "C12.refused-write-but-success": "C47.refused-write-but-success"}
+
+
 def generate(seed, tier):
+    if seed % 5 == 4:
+        # "...and no unexpected version was encountered": two or three uncoordinated writers on a (possibly partitioned)
+        # grid; a publish that was shown another writer's shares in the answers to its writes must not report success
+        case = mutsim.gen_concurrent(seed, tier)
+        case["as"] = "C47"
+        return case
     return mutsim.gen_single(seed, tier, "C47")
 
 
 def execute(case):
+    if case.get("profile") == "concurrent":
+        r = mutsim.exec_concurrent(case)
+        out = []
+        for v in r["violations"]:
+            if v["clause"] in _FROM_RACE:
+                c = _FROM_RACE[v["clause"]]
+                out.append(dict(v, clause=c, sig=c))
+        r["violations"] = out
+        return r
     return mutsim.exec_single(case)
